@@ -107,13 +107,15 @@ static inline int64_t cstl_tp_diff(cstl_tp a, cstl_tp b)
 #ifdef CSTL_CBMC
 static inline cstl_ms cstl_ns_to_ms(int64_t x)
 {
-    CSTL_ASSERT(x >= 0 && G_MS >= 0, "model bound: only non-negative durations are converted back to milliseconds");
+    CSTL_ASSERT(G_MS >= 0 && x > INT64_MIN, "model bound: the abstract conversion pair is non-negative");
     CSTL_ASSUME((G_MS > 0) == (G_NS > 0) && G_NS >= G_MS);
-    cstl_ms r = nondet_i64();
-    CSTL_ASSUME(r >= 0 && r <= x);
-    CSTL_ASSUME(x >= G_NS ? r >= G_MS : r < G_MS);
-    CSTL_ASSUME(x != G_NS || r == G_MS);
-    return r;
+    /* truncation toward zero: |result| is the floor of |x| / 10^6 with the sign of x */
+    int64_t ax = x < 0 ? -x : x;
+    cstl_ms ar = nondet_i64();
+    CSTL_ASSUME(ar >= 0 && ar <= ax);
+    CSTL_ASSUME(ax >= G_NS ? ar >= G_MS : ar < G_MS);
+    CSTL_ASSUME(ax != G_NS || ar == G_MS);
+    return x < 0 ? -ar : ar;
 }
 #else
 static inline cstl_ms cstl_ns_to_ms(int64_t x) { return x / 1000000; }
@@ -1419,6 +1421,8 @@ class FuncEmitter:
             if name == 'owns_lock' and not args:
                 return owns
             abort('unique_lock operation without a rule: ' + name, e)
+        if bt.k in ('ms', 'ns') and name == 'count' and not args:
+            return '((int64_t)%s)' % self.expr(base)
         if bt.k == 'cmutex':
             return '%s__%s(&%s)' % (bt.c, name, self.expr(base))
         if bt.k == 'stdmutex':
